@@ -399,6 +399,8 @@ impl Heap {
         // millions of allocations in one loop, without a function return in between: what a collector does only "after a
         // while" (a threshold, a generation, a grown table) happens inside these runs
         f.push(("long-runs", match (ctx.flavour, ctx.tier) { (Flavour::Miri, _) => 0, (Flavour::Rel, Tier::Thorough) => (LONG_RUNS * 3) as u64, _ => LONG_RUNS as u64 }));
+        // an array of n values of which exactly one (slot k) lives on the heap: every n up to a bound, every k
+        f.push(("lone-heap-element", match (ctx.flavour, ctx.tier) { (Flavour::Miri, _) => 48, (Flavour::Rel, Tier::Thorough) => lone_total(LONE_N_THOROUGH), _ => lone_total(LONE_N_QUICK) }));
         f.push(("scale", if ctx.flavour == Flavour::Miri { 0 } else { crate::scale::heap_programs(ctx.flavour == Flavour::Rel && ctx.tier == Tier::Thorough).len() as u64 }));
         Families::new(f)
     }
@@ -409,6 +411,7 @@ impl Heap {
         match name {
             "directed" => (name, directed()[i as usize].1.to_string()),
             "one-machine-many-compilers" => (name, machine_programs(&mut r, ctx.flavour != Flavour::Miri).join("\n//---- next program, fresh compiler\n")),
+            "lone-heap-element" => (name, lone_heap_element(if ctx.flavour == Flavour::Miri { (i * 211) % lone_total(LONE_N_QUICK) } else { i })),
             "long-runs" => (name, long_run((i as usize) % LONG_RUNS, long_run_size(ctx, i)).0),
             "scale" => (name, crate::scale::heap_programs(ctx.flavour == Flavour::Rel && ctx.tier == Tier::Thorough)[i as usize].1.clone()),
             "valgrind" => {
@@ -528,6 +531,45 @@ impl Heap {
         }
         verif::clear_ledger();
         (o.count, o.outcome)
+    }
+}
+
+const LONE_N_QUICK: u64 = 40;
+const LONE_N_THOROUGH: u64 = 150;
+const LONE_VARIANTS: u64 = 12;
+
+fn lone_total(n_max: u64) -> u64 {
+    LONE_VARIANTS * n_max * (n_max + 1) / 2
+}
+
+/// An array of n values, small integers except for slot k, which holds a value made at run time (a float, a string, an
+/// array); the array is held by a global / filled in afterwards / held by a local / held inside another array; a
+/// function returns (a collection), fresh values are made (a reclaimed box would be handed out again), slot k is read.
+/// A collector that decides from a sample of the elements whether an array needs tracing is wrong for one (n, k).
+fn lone_heap_element(i: u64) -> String {
+    let kind = i % 3;
+    let shape = (i / 3) % 4;
+    let mut j = i / LONE_VARIANTS;
+    let mut n = 1u64;
+    while j >= n {
+        j -= n;
+        n += 1;
+    }
+    let k = j;
+    let heap = match kind {
+        0 => "0.5 + 0.25".to_string(),
+        1 => "string(12345)".to_string(),
+        _ => "[7.5 - 0.25]".to_string(),
+    };
+    let items = |with_heap: bool| -> String {
+        (0..n).map(|x| if x == k && with_heap { heap.clone() } else { x.to_string() }).collect::<Vec<_>>().join(", ")
+    };
+    let churn = "stel b = 1.5 + 2.0; stel c = string(777); stel d = [2.5 + 4.0]";
+    match shape {
+        0 => format!("functie f() {{ 0 }}\nstel a = [{}]\nf()\n{}\nf()\n[a[{}], b, c, d]", items(true), churn, k),
+        1 => format!("functie f() {{ 0 }}\nstel a = [{}]\na[{}] = {}\nf()\n{}\nf()\n[a[{}], b, c, d]", items(false), k, heap, churn, k),
+        2 => format!("functie f() {{ 0 }}\nfunctie g() {{ stel a = [{}]; f(); {}; f(); [a[{}], b, c, d] }}\ng()", items(true), churn, k),
+        _ => format!("functie f() {{ 0 }}\nstel a = [1, [{}], 2]\nf()\n{}\nf()\nstel r = a[1]\n[r[{}], b, c, d]", items(true), churn, k),
     }
 }
 
